@@ -79,6 +79,9 @@ type translator struct {
 	out       map[string]*strings.Builder
 	disp      map[dispKey]*dispInfo
 	dispErr   map[dispKey]error
+	curPkg    string
+	usedGen   map[string]map[string]bool
+	errEnum   bool // while translating a function that compares error values (err == io.EOF)
 }
 
 func pkgShort(path string) string {
@@ -229,8 +232,8 @@ func (t *translator) leanType(ty types.Type) (string, error) {
 			return "Int", nil
 		case types.Bool:
 			return "Bool", nil
-		case types.String:
-			return "String", nil
+		case types.String, types.UntypedString:
+			return "Bytes", nil
 		}
 		return "", fmt.Errorf("basic type %s", x.Name())
 	case *types.Pointer:
@@ -255,12 +258,21 @@ func (t *translator) leanType(ty types.Type) (string, error) {
 		obj := x.Obj()
 		if obj.Pkg() == nil {
 			if obj.Name() == "error" {
+				if t.errEnum {
+					return "Go.Err", nil
+				}
 				return "Bool", nil
 			}
 			return "", fmt.Errorf("universe type %s", obj.Name())
 		}
 		key := obj.Pkg().Path() + "." + obj.Name()
-		if l, ok := t.extern.Types[key]; ok {
+		switch key {
+		case "bytes.Buffer":
+			return "Bytes", nil
+		case "bufio.Reader", "bytes.Reader":
+			return "Go.Reader", nil
+		}
+		if l, ok := t.extern.Types[key]; ok && (l == "" || obj.Pkg().Path() != t.curPkg) {
 			if l == "" {
 				return "", fmt.Errorf("type %s is not translated", key)
 			}
@@ -269,6 +281,9 @@ func (t *translator) leanType(ty types.Type) (string, error) {
 		if t.genPkgs[obj.Pkg().Path()] {
 			switch x.Underlying().(type) {
 			case *types.Struct, *types.Interface:
+				if t.usedGen != nil && t.curPkg != "" && t.curPkg != obj.Pkg().Path() {
+					t.usedGen[t.curPkg][obj.Pkg().Path()] = true
+				}
 				return "Ike.Gen." + pkgShort(obj.Pkg().Path()) + "." + san(obj.Name()), nil
 			default:
 				return t.leanType(x.Underlying())
@@ -282,6 +297,16 @@ func (t *translator) leanType(ty types.Type) (string, error) {
 		return "", fmt.Errorf("type %s of a package that is not translated", key)
 	case *types.Alias:
 		return t.leanType(types.Unalias(x))
+	case *types.Map:
+		k, err := t.leanType(x.Key())
+		if err != nil {
+			return "", err
+		}
+		v, err := t.leanType(x.Elem())
+		if err != nil {
+			return "", err
+		}
+		return "(Go.Map " + k + " " + v + ")", nil
 	}
 	return "", fmt.Errorf("type %s", ty.String())
 }
@@ -294,7 +319,7 @@ func (t *translator) zero(ty types.Type) (string, error) {
 		case types.Bool:
 			return "false", nil
 		case types.String:
-			return "\"\"", nil
+			return "([] : Bytes)", nil
 		}
 		lt, err := t.leanType(ty)
 		if err != nil {
@@ -303,6 +328,8 @@ func (t *translator) zero(ty types.Type) (string, error) {
 		return "(0 : " + lt + ")", nil
 	case *types.Slice:
 		return "[]", nil
+	case *types.Map:
+		return "none", nil
 	case *types.Pointer:
 		if _, ok := x.Elem().Underlying().(*types.Basic); ok {
 			return "none", nil
@@ -317,7 +344,13 @@ func (t *translator) zero(ty types.Type) (string, error) {
 			return z, nil
 		}
 		if n, ok := ty.(*types.Named); ok && n.Obj().Pkg() == nil { // error
+			if t.errEnum {
+				return "Go.Err.none", nil
+			}
 			return "false", nil
+		}
+		if lt == "Bytes" || lt == "Go.Reader" {
+			return "([] : Bytes)", nil
 		}
 		if _, ok := ty.Underlying().(*types.Interface); ok {
 			return "(" + lt + ".nil_)", nil
@@ -382,6 +415,9 @@ func (t *translator) emitTypes(p *packages.Package, sb *strings.Builder) {
 		case *types.Pointer:
 			deps(x.Elem(), f)
 		case *types.Slice:
+			deps(x.Elem(), f)
+		case *types.Map:
+			deps(x.Key(), f)
 			deps(x.Elem(), f)
 		case *types.Named:
 			if x.Obj().Pkg() != nil && x.Obj().Pkg().Path() == p.PkgPath {
